@@ -95,4 +95,12 @@ theorem C07_access (ds : Dataset) (cs : ConnSet) (p : Params) :
     · rcases key _ ⟨ha, he⟩ h with e | e | e <;> cases e
     · rcases key _ ⟨ha, he⟩ h with e | e | e <;> cases e
 
+/-- where the scans start, re-read from the source on every run: the forward scans hand
+    `departureTimeSeconds / 3600` to the hour index, the reverse scans `arrivalTimeSeconds / 3600 + 1`
+    (the model's `hourOf p.time` and `hourOf cx.arrT + 1`; the transparency lemmas `fwdIndex_spec` /
+    `revIndex_spec` are about exactly these hours) -/
+theorem C07_scan_start :
+    (["forward_scans_start_at_hour_of_departure_time", "reverse_scans_start_at_hour_after_arrival_time"].all
+        fun k => Gen.facts.lookup k == some true) = true := by decide
+
 end Tr
